@@ -15,7 +15,7 @@ def gen_store_faults(rng, world, p=0.5):
     if names and rng.random() < p:
         for _ in range(rng.randrange(1, 3)):
             op = rng.choice(["read", "write", "write", "mtime"])
-            f = dict(store=rng.choice(names), op=op, exc=rng.choice(["E1", "E2", "OSError"]))
+            f = dict(store=rng.choice(names), op=op, exc=rng.choice(["E1", "E2", "OSError", "F1"]))
             if op == "write":
                 f["when"] = rng.choice(["before", "after"])
             if rng.random() < 0.3:
@@ -266,7 +266,12 @@ def gen_c14(seed, tier):
         # a store that cannot be examined: the real run fails in the stale check, so must the dry run
         desc["ops"][-1]["faults"] = dict(stores=[dict(store=rng.choice(names), op="mtime",
                                                       exc=rng.choice(["E1", "OSError", "TimeoutError", "FileNotFoundError"]))])
-    elif names and r < 0.45:
+    elif names and r < 0.4:
+        # a transient failure that the caller's retry policy absorbs - in the dry run as in the real run
+        desc["ops"][-1]["cfg"]["retry"] = rng.choice([2, 3, ["custom", 2]])
+        desc["ops"][-1]["faults"] = dict(stores=[dict(store=rng.choice(names), op="mtime", until=1,
+                                                      exc=rng.choice(["E1", "OSError", "TimeoutError"]))])
+    elif names and r < 0.5:
         f = dict(store=rng.choice(names), op=rng.choice(["read", "write"]), exc=rng.choice(["E1", "OSError"]))
         if f["op"] == "write":
             f["when"] = rng.choice(["before", "after"])
@@ -327,6 +332,13 @@ def exec_c14(prop, desc):
         if not (isinstance(rec_d.result, tuple) and len(rec_d.result) == 2):
             viol.append(O.V("dry-run-result", f"dry run returned {type(rec_d.result).__name__}, not (plan, node)"))
     viol.extend(O.o_unmodified(rec_d, world, hist))
+    if not viol and rec_d.exc is not None:
+        # the dry run failed: then the corresponding real run (same store state, same options, same faults) fails too
+        _restore(hist, st0)
+        rec_r = machine.run_op(hist, copy.deepcopy(op), last + 1)
+        if rec_r.exc is None:
+            viol.append(O.V("dry-run-failed", f"the dry run raised {rec_d.exc!r} / {rec_d.exc.__cause__!r} although the "
+                                              f"real run from the same store state, with the same options, succeeds"))
     if not viol and rec_d.exc is None:
         phys, out_node = rec_d.result
         # (2) the corresponding real run from the same store state
